@@ -45,6 +45,8 @@ type fakeS3 struct {
 	occupied bool
 	ups     []upload
 	onReq   func(n int) // called before answering the n-th request (1-based)
+	scanDir string      // the database's directory, looked at during every upload
+	exposed []string    // files seen there other than the database, or readable by group or others
 }
 
 func (f *fakeS3) Do(req *http.Request) (*http.Response, error) {
@@ -67,6 +69,20 @@ func (f *fakeS3) Do(req *http.Request) (*http.Response, error) {
 	hook := f.onReq
 	f.ups = append(f.ups, upload{at: at, key: req.URL.Path, body: body, ok: outcome == "ok"})
 	f.mu.Unlock()
+	if f.scanDir != "" {
+		// while an upload is under way: what lies in the database's directory, and who may read it
+		if ents, err := os.ReadDir(f.scanDir); err == nil {
+			for _, e := range ents {
+				if fi, err := e.Info(); err == nil && !fi.IsDir() && !strings.HasPrefix(e.Name(), "restore-") {
+					if fi.Mode().Perm()&0o077 != 0 || e.Name() != "setec.db" {
+						f.mu.Lock()
+						f.exposed = append(f.exposed, fmt.Sprintf("%s:%o", e.Name(), fi.Mode().Perm()))
+						f.mu.Unlock()
+					}
+				}
+			}
+		}
+	}
 	if hook != nil {
 		hook(n)
 	}
@@ -98,8 +114,19 @@ func (f *fakeS3) Do(req *http.Request) (*http.Response, error) {
 	status := 200
 	rb := ""
 	if outcome != "ok" {
-		status = 500
-		rb = `<?xml version="1.0" encoding="UTF-8"?><Error><Code>InternalError</Code><Message>injected</Message></Error>`
+		// a failed upload is a failed upload, whatever the endpoint calls it: an internal error, a
+		// credential that had expired for a moment, a policy being edited
+		switch n % 3 {
+		case 0:
+			status = 500
+			rb = `<?xml version="1.0" encoding="UTF-8"?><Error><Code>InternalError</Code><Message>injected</Message></Error>`
+		case 1:
+			status = 403
+			rb = `<?xml version="1.0" encoding="UTF-8"?><Error><Code>AccessDenied</Code><Message>injected</Message></Error>`
+		default:
+			status = 400
+			rb = `<?xml version="1.0" encoding="UTF-8"?><Error><Code>ExpiredToken</Code><Message>injected</Message></Error>`
+		}
 	}
 	return &http.Response{StatusCode: status, Status: fmt.Sprint(status), Header: http.Header{"Content-Type": {"application/xml"}, "Etag": {`"x"`}},
 		Body: io.NopCloser(strings.NewReader(rb)), Request: req, ProtoMajor: 1, ProtoMinor: 1}, nil
@@ -223,7 +250,7 @@ func traceBackup(t *testing.T, o opts) {
 				// the server does not start on a minute boundary of the wall clock (the bubble's clock
 				// starts at midnight sharp)
 				time.Sleep(time.Duration(offset) * time.Millisecond)
-				fs3 := &fakeS3{t0: time.Now(), script: append([]string(nil), script...), latency: time.Duration(latency) * time.Millisecond, lat2: time.Duration(lat2) * time.Millisecond, occupied: h%4 == 1}
+				fs3 := &fakeS3{t0: time.Now(), script: append([]string(nil), script...), latency: time.Duration(latency) * time.Millisecond, lat2: time.Duration(lat2) * time.Millisecond, occupied: h%4 == 1, scanDir: dir}
 				client := s3.New(s3.Options{Region: "us-east-1", HTTPClient: fs3,
 					Credentials:  credentials.NewStaticCredentialsProvider("AK", "SK", ""),
 					BaseEndpoint: aws.String("http://s3.invalid"), UsePathStyle: true, RetryMaxAttempts: 1})
@@ -307,7 +334,21 @@ func traceBackup(t *testing.T, o opts) {
 				for _, f := range files {
 					fparts = append(fparts, fmt.Sprintf("%d/%s", f.at, f.hash))
 				}
-				res = fmt.Sprintf("ups=%s\tfiles=%s\texit=%d\tspins=0\tfinal=%s", strings.Join(uparts, ";"), strings.Join(fparts, ";"), exitAt, h12(final))
+				fs3.mu.Lock()
+				exposed := "-"
+				if len(fs3.exposed) > 0 {
+					seen := map[string]bool{}
+					var xs []string
+					for _, x := range fs3.exposed {
+						if !seen[x] {
+							seen[x] = true
+							xs = append(xs, hx(x))
+						}
+					}
+					exposed = strings.Join(xs, ",")
+				}
+				fs3.mu.Unlock()
+				res = fmt.Sprintf("ups=%s\tfiles=%s\texit=%d\tspins=0\tfinal=%s\texposed=%s", strings.Join(uparts, ";"), strings.Join(fparts, ";"), exitAt, h12(final), exposed)
 				if exitAt < 0 {
 					// the task did not return: it cannot be stopped and would keep the bubble (and its
 					// virtual clock) running for ever, so report this history and abandon the rest
